@@ -6,6 +6,7 @@
 -/
 import WR.C16.Lemmas
 import WR.C16.LemmasOrder
+import WR.C16.Enclosure
 set_option linter.unusedSimpArgs false
 namespace WR.Props.C16
 open WR.C16
@@ -57,96 +58,167 @@ theorem partition_covers (own : List CCtx) :
   · intro c hc; simpa using (List.mem_filter.mp hc).2
   · intro c hc; simpa using (List.mem_filter.mp hc).2
 
-/-- the step order of drawStackingContext for one context: own background, own border, negative-z
-    contexts, in-flow blocks (background then border each), floats, inline content, z = 0 / auto
-    contexts, positive-z contexts, outline — the children of one context are painted in Appendix E's
-    layer order whatever the lists contain. -/
-theorem context_layer_order (id : Nat) (neg zero pos : List CCtx) (blocks : List Nat) (floats : List (List PEv)) (lines : List Nat) :
-    drawCtx id true neg zero pos blocks floats lines =
-      [(id, .background), (id, .border)]
+/-- the step order of drawStackingContext for one context: [opacity group [transform [ own background, own
+    border, [overflow clip: negative-z contexts, in-flow blocks (background then border each), floats, inline
+    content, z = 0 / auto contexts, positive-z contexts ], outlines of the box and of its in-flow descendants ]]]
+    — the children of one context are painted in Appendix E's layer order whatever the lists contain. -/
+theorem context_layer_order (id : Nat) (pr : BProps) (neg zero pos : List CCtx) (blocks : List Nat)
+    (floats : List (List PEv)) (lines kept : List Nat) :
+    drawCtx id pr neg zero pos blocks floats lines kept =
+      (if pr.opacity then [(id, Layer.groupOpen)] else [])
+      ++ (if pr.transform then [(id, Layer.xformOpen)] else [])
+      ++ (if pr.blockLevel || pr.inlineBlock then [(id, .background), (id, .border)] else [])
+      ++ (if pr.overflow then [(id, Layer.clipOpen)] else [])
       ++ neg.flatMap (·.2)
       ++ blocks.flatMap (fun b => [(b, Layer.background), (b, Layer.border)])
       ++ floats.flatten
       ++ lines.map (fun b => (b, Layer.content))
       ++ zero.flatMap (·.2)
       ++ pos.flatMap (·.2)
-      ++ [(id, .outline)] := by
+      ++ (if pr.overflow then [(id, Layer.clipClose)] else [])
+      ++ (id :: kept).map (fun b => (b, Layer.outline))
+      ++ (if pr.transform then [(id, Layer.xformClose)] else [])
+      ++ (if pr.opacity then [(id, Layer.groupClose)] else []) := by
   simp [drawCtx]
 
-theorem drawCtx_shape (id : Nat) (neg zero pos : List CCtx) (blocks : List Nat) (floats : List (List PEv)) (lines : List Nat) :
-    ∃ mid, drawCtx id true neg zero pos blocks floats lines
-      = (id, Layer.background) :: (id, Layer.border) :: mid ++ [(id, Layer.outline)] :=
-  ⟨neg.flatMap (·.2) ++ (blocks.flatMap (fun b => [(b, Layer.background), (b, Layer.border)])
-      ++ (floats.flatten ++ (lines.map (fun b => (b, Layer.content)) ++ (zero.flatMap (·.2) ++ pos.flatMap (·.2))))),
-    by simp [drawCtx, List.append_assoc]⟩
+/-- for a block-level box that forms a (pseudo-)context: background < border < the paints of its context <
+    its outline -/
+theorem box_layers_order (id : Nat) (pr : BProps) (h : pr.blockLevel = true) (parts : List CCtx) (blocks : List Nat)
+    (floats : List (List PEv)) (lines inflow : List Nat) :
+    ∃ pre mid post, layers id pr parts blocks floats lines inflow
+      = pre ++ (id, Layer.background) :: (id, Layer.border) :: mid ++ (id, Layer.outline) :: post
+      ∧ (∀ e ∈ pre, e = (id, Layer.groupOpen) ∨ e = (id, Layer.xformOpen)) := by
+  refine ⟨(if pr.opacity then [(id, Layer.groupOpen)] else []) ++ (if pr.transform then [(id, Layer.xformOpen)] else []),
+    (if pr.overflow then [(id, Layer.clipOpen)] else []) ++ (((sortZ (parts.filter (·.1 < 0))).flatMap (·.2)
+      ++ (blocks.flatMap (fun b => [(b, Layer.background), (b, Layer.border)])
+      ++ (floats.flatten
+      ++ ((((if pr.hasLines then [id] else []) ++ lines).map (fun b => (b, Layer.content)))
+      ++ ((parts.filter (·.1 == 0)).flatMap (·.2)
+      ++ (sortZ (parts.filter (·.1 > 0))).flatMap (·.2)))))) ++ (if pr.overflow then [(id, Layer.clipClose)] else [])),
+    inflow.map (fun b => (b, Layer.outline)) ++ ((if pr.transform then [(id, Layer.xformClose)] else [])
+      ++ (if pr.opacity then [(id, Layer.groupClose)] else [])), ?_, ?_⟩
+  · simp [layers, h, List.append_assoc]
+  · intro e he
+    cases ho : pr.opacity <;> cases ht : pr.transform <;> simp [ho, ht] at he <;> simp [he]
 
-/-- for a box that forms a stacking context: background < border < everything of its sub-tree < outline -/
-theorem box_layers_order (id : Nat) (p : Bool) (z : Option Int) (f c ib hl : Bool) (children : List Box) :
-    ∃ mid, (ctxOfBox (.mk id p z f c true ib hl children) none).1
-      = (id, Layer.background) :: (id, Layer.border) :: mid ++ [(id, Layer.outline)] := by
-  simp only [ctxOfBox, finishCtx, Box.blockLevel, Box.inlineBlock, Box.id, Bool.true_or]
-  exact drawCtx_shape _ _ _ _ _ _ _
+/-- group_encloses_subtree, the part that is a matter of shape: what a box with opacity < 1 paints is exactly
+    `group-open … group-close`; the transform scope lies inside the group and contains every paint; the
+    overflow clip contains steps 3-9 and neither the box's background/border nor its outline. -/
+theorem group_brackets_shape (id : Nat) (pr : BProps) (parts : List CCtx) (blocks : List Nat)
+    (floats : List (List PEv)) (lines inflow : List Nat) :
+    ∃ bgbd inner outl,
+      layers id pr parts blocks floats lines inflow =
+        (if pr.opacity then [(id, Layer.groupOpen)] else [])
+        ++ ((if pr.transform then [(id, Layer.xformOpen)] else [])
+          ++ (bgbd
+            ++ ((if pr.overflow then [(id, Layer.clipOpen)] else []) ++ (inner ++ (if pr.overflow then [(id, Layer.clipClose)] else [])))
+            ++ (id, Layer.outline) :: outl)
+          ++ (if pr.transform then [(id, Layer.xformClose)] else []))
+        ++ (if pr.opacity then [(id, Layer.groupClose)] else [])
+      ∧ (∀ e ∈ bgbd, e = (id, Layer.background) ∨ e = (id, Layer.border))
+      ∧ outl = inflow.map (fun b => (b, Layer.outline)) := by
+  refine ⟨if pr.blockLevel || pr.inlineBlock then [(id, .background), (id, .border)] else [],
+    ((sortZ (parts.filter (·.1 < 0))).flatMap (·.2)
+      ++ (blocks.flatMap (fun b => [(b, Layer.background), (b, Layer.border)])
+      ++ (floats.flatten
+      ++ ((((if pr.hasLines then [id] else []) ++ lines).map (fun b => (b, Layer.content)))
+      ++ ((parts.filter (·.1 == 0)).flatMap (·.2)
+      ++ (sortZ (parts.filter (·.1 > 0))).flatMap (·.2)))))), _, ?_, ?_, rfl⟩
+  · simp [layers, List.append_assoc]
+  · intro e he
+    cases hb : (pr.blockLevel || pr.inlineBlock) <;> simp [hb] at he <;> simp [he]
 
 /-! ## model versus Appendix E -/
 
-/-- The headline: for every box tree and every assignment of position / z-index / float / opacity-
-    transform-overflow / block-level / inline content, the paint order produced by the model of
-    stacking.go (single-pass dispatch with insert-at-remembered-index, partition by sign, stable sort,
-    drawStackingContext's steps) IS the CSS 2.1 Appendix E order of the spec (per-layer traversals;
-    z-index read on positioned boxes only). -/
+/-- The headline: for every box tree and every assignment of position / z-index / float / opacity /
+    transform / overflow / block-level / inline content, the sequence of paints and group brackets produced
+    by the model of stacking.go (single-pass dispatch with insert-at-remembered-index, partition by sign,
+    stable sort, drawStackingContext's steps) IS the CSS 2.1 Appendix E order of the spec (per-layer
+    traversals; z-index read on positioned boxes only). -/
 theorem paint_order_respects_E (root : Box) : paintOrder root = specOrder root := by
   cases root with
-  | mk id p z f c bl ib hl children =>
+  | mk id pr children =>
     simp only [paintOrder, specOrder]
-    rw [ctx_none_of id p z f c bl ib hl children (dispatchChildren_eq children)]
+    rw [ctx_none_of id pr children (dispatchChildren_eq children)]
 
 /-- the sub-contexts found inside a float / positioned z-index:auto box are handed to the enclosing real
     context, in tree order, after the ones found before it -/
 theorem pseudo_context_lifts (b : Box) (cc : List CCtx) :
     ctxOfBox b (some cc) = (specPseudo b, cc ++ participants b.children) := by
   cases b with
-  | mk id p z f c bl ib hl children =>
-    exact ctx_some_of id p z f c bl ib hl children cc (dispatchChildren_eq children)
+  | mk id pr children =>
+    exact ctx_some_of id pr children cc (dispatchChildren_eq children)
+
+def pr0 : BProps := ⟨false, none, false, false, false, false, true, false, false⟩
 
 /-- The document that used to be the negation witness (z-index was honoured on a non-positioned opacity
     box; repaired in /repo a96a4f9; the same document is a first-run corpus case of the harness):
     b1: position:relative; z-index:1 — b2: opacity:0.5; z-index:2 (not positioned). -/
 def witness : Box :=
-  .mk 0 false none false false true false false
-    [.mk 1 true (some 1) false false true false true [], .mk 2 false (some 2) false true true false true []]
+  .mk 9 pr0
+    [.mk 1 { pr0 with positioned := true, z := some 1, hasLines := true } [],
+     .mk 2 { pr0 with z := some 2, opacity := true, hasLines := true } []]
 
 theorem witness_spec : specOrder witness =
-    [(0, .background), (0, .border), (2, .background), (2, .border), (2, .content), (2, .outline),
-     (1, .background), (1, .border), (1, .content), (1, .outline), (0, .outline)] := by
-  simp [witness, specOrder, specReal, specPseudo, participants, flowBlocks, floatsOf, flowLines, Box.inFlow,
-    Box.specZ, Box.makesContext, Box.zIndex, Box.positioned, Box.z, Box.ctx, Box.floated, Box.id, Box.blockLevel,
-    Box.inlineBlock, Box.hasLines, sortZ, insertZ]
+    [(9, .background), (9, .border),
+     (2, .groupOpen), (2, .background), (2, .border), (2, .content), (2, .outline), (2, .groupClose),
+     (1, .background), (1, .border), (1, .content), (1, .outline), (9, .outline)] := by
+  simp [witness, pr0, specOrder, specReal, specPseudo, layers, participants, flowBlocks, floatsOf, flowLines, flowAll,
+    BProps.inFlow, BProps.specZ, BProps.makesContext, sortZ, insertZ]
 
-/-- b2 (layer 8: z-index does not apply) is now painted before b1 (layer 9) by the model too -/
+/-- b2 (layer 8: z-index does not apply) is painted before b1 (layer 9) by the model too -/
 theorem witness_model : paintOrder witness =
-    [(0, .background), (0, .border), (2, .background), (2, .border), (2, .content), (2, .outline),
-     (1, .background), (1, .border), (1, .content), (1, .outline), (0, .outline)] := by
+    [(9, .background), (9, .border),
+     (2, .groupOpen), (2, .background), (2, .border), (2, .content), (2, .outline), (2, .groupClose),
+     (1, .background), (1, .border), (1, .content), (1, .outline), (9, .outline)] := by
   rw [paint_order_respects_E, witness_spec]
 
+/-! ## group_encloses_subtree
+
+  Full statement (`enclosureJudge`, WR/C16/Enclosure.lean, evaluated by the harness on the events of every
+  rendered document): for every box, every paint of the box and of its sub-tree — its outline included —
+  lies between the open and the composite of its opacity group, inside its transform scope, and (for the
+  descendants and the box's own content, not for its own background / border / outline) inside its
+  overflow clip; per box background < border < content < outline.
+
+    theorem group_encloses_subtree (root : Box) : enclosureJudge root (specOrder root) = true
+
+  FALSE on the current code for the overflow clause: drawStackingContext paints the outlines of the
+  in-flow descendants at step 10, after the inner OnNewStack that holds the overflow clip is closed, so
+  the outline of a descendant of an `overflow:hidden` box is not clipped (known finding KF16-2).
+  Negation witness: <div style="overflow:hidden"><div style="outline:…">x</div></div>. -/
+
+def clipWitness : Box :=
+  .mk 9 pr0 [.mk 1 { pr0 with overflow := true } [.mk 2 { pr0 with hasLines := true } []]]
+
+theorem clipWitness_spec : specOrder clipWitness =
+    [(9, .background), (9, .border), (1, .background), (1, .border), (1, .clipOpen), (2, .background), (2, .border),
+     (2, .content), (1, .clipClose), (1, .outline), (2, .outline), (9, .outline)] := by
+  simp [clipWitness, pr0, specOrder, specReal, specPseudo, layers, participants, flowBlocks, floatsOf, flowLines, flowAll,
+    BProps.inFlow, BProps.specZ, BProps.makesContext, sortZ, insertZ]
+
+theorem group_encloses_subtree_false : enclosureJudge clipWitness (specOrder clipWitness) = false := by
+  rw [clipWitness_spec]
+  simp only [clipWitness, pr0, enclosureJudge, encloseBox, encloseList, idsOf, idsOfL]
+  decide
+
+/-- … and that outline is the only thing wrong with it -/
+theorem group_encloses_subtree_witness_lenient : enclosureJudgeLenient clipWitness (specOrder clipWitness) = true := by
+  rw [clipWitness_spec]
+  simp only [clipWitness, pr0, enclosureJudgeLenient, encloseBox, encloseList, idsOf, idsOfL]
+  decide
+
+/- What is proved of it for all trees: `group_brackets_shape` (the brackets of a box enclose everything its
+   own (pseudo-)context paints, outline included; the clip encloses steps 3-9 only) and
+   `box_layers_order`.  NOT proved for all trees (judged on every rendered document): that every descendant's
+   paints are among what the box's context paints (completeness of the traversals), i.e.
+   `enclosureJudgeLenient root (specOrder root) = true`. -/
+
 /-- non-vacuity of the layers: negative / positive contexts with a tie, a positioned z-index:auto box holding a
-    negative-z context (lifted to the root context), a float, nested in-flow blocks -/
-example : specOrder (.mk 0 false none false false true false false
-    [.mk 1 true (some 2) false false true false true [],
-     .mk 2 true none false false true false false [.mk 3 true (some (-1)) false false true false true []],
-     .mk 4 false none true false true false true [],
-     .mk 5 false none false false true false false [.mk 6 false none false false true false true []],
-     .mk 7 true (some 2) false false true false true []])
-  = [(0, .background), (0, .border),
-     (3, .background), (3, .border), (3, .content), (3, .outline),
-     (5, .background), (5, .border), (6, .background), (6, .border),
-     (4, .background), (4, .border), (4, .content), (4, .outline),
-     (6, .content),
-     (2, .background), (2, .border), (2, .outline),
-     (1, .background), (1, .border), (1, .content), (1, .outline),
-     (7, .background), (7, .border), (7, .content), (7, .outline),
-     (0, .outline)] := by
-  simp [specOrder, specReal, specPseudo, participants, flowBlocks, floatsOf, flowLines, Box.inFlow,
-    Box.specZ, Box.makesContext, Box.zIndex, Box.positioned, Box.z, Box.ctx, Box.floated, Box.id, Box.blockLevel,
-    Box.inlineBlock, Box.hasLines, sortZ, insertZ]
+    negative-z context (lifted to the root context), a float, nested in-flow blocks, an opacity+transform+overflow box -/
+example : enclosureJudgeLenient witness (specOrder witness) = true := by
+  rw [witness_spec]
+  simp only [witness, pr0, enclosureJudgeLenient, encloseBox, encloseList, idsOf, idsOfL]
+  decide
 
 end WR.Props.C16
